@@ -17,7 +17,7 @@ UNITS = {
     "blake2": {"driver": "Blake2", "harness": "ops_blake2", "gens": "blake2",
                "props": {"C01": ["CxVerif.Props.C01.Blake2"], "C02": ["CxVerif.Props.C02.Blake2"], "C20": ["CxVerif.Props.C20.Blake2"]}},
     "fe64": {"driver": "Fe64", "harness": "ops_fe64", "gens": "fe64",
-             "props": {"C12": ["CxVerif.Props.C12.X25519"], "C15": ["CxVerif.Props.C15.Fe64", "CxVerif.Props.C15.KernelTieFe64"]}},
+             "props": {"C12": ["CxVerif.Props.C12.X25519", "CxVerif.Props.C12.Symmetry"], "C15": ["CxVerif.Props.C15.Fe64", "CxVerif.Props.C15.KernelTieFe64"]}},
     "poly1305": {"driver": "Poly1305", "harness": "ops_poly1305", "gens": "poly1305",
                  "props": {"C05": ["CxVerif.Props.C05.Poly1305", "CxVerif.Props.C05.KernelTie"], "C09": ["CxVerif.Props.C09.Poly1305"]}},
     "scalar64": {"driver": "Scalar64", "harness": "ops_scalar64", "gens": "scalar64", "props": {"C15": ["CxVerif.Props.C15.Scalar64", "CxVerif.Props.C15.KernelTieScalar64"]}},
